@@ -27,7 +27,8 @@ for v in viols:
     else:
         unknown.append(v)
 
-if rep.get("harness_errors"):
+if rep.get("harness_errors") and not unknown:
+    # (a violation found before the harness gave up is still a violation: it is reported below)
     print("HARNESS ERROR:", rep["harness_errors"][:3], file=sys.stderr)
     sys.exit(2)
 
